@@ -606,3 +606,32 @@ Proof.
     destruct (app_len_inj _ _ _ _ E2) as [E _]; [congruence|].
     rewrite (split_unique pre1 pre2 lbl1 lbl2 E B1 B2 Nd1 Nd2) in L1. congruence.
 Qed.
+
+(* --- the two call sites: the client validates with allow_wildcard = false, the server with true ------- *)
+
+(* what the client accepts contains no '*' at all *)
+Lemma client_domain_no_star : forall s, check_topdomain s false = true -> ~ In ch_star s.
+Proof.
+  intros s H. apply check_topdomain_iff in H. destruct H as (_ & [Hc | (Hw & _)] & _).
+  - intros Hin. rewrite Forall_forall in Hc. exact (dom_char_not_star _ (Hc _ Hin) eq_refl).
+  - discriminate Hw.
+Qed.
+
+(* every domain the client accepts the server accepts too *)
+Lemma server_accepts_client_domains : forall s, check_topdomain s false = true -> check_topdomain s true = true.
+Proof.
+  intros s H. apply check_topdomain_iff. apply check_topdomain_iff in H.
+  destruct H as (Hl & [Hc | (Hw & _)] & Hls); [|discriminate Hw].
+  split; [exact Hl|]. split; [left; exact Hc|exact Hls].
+Qed.
+
+(* and the only domains accepted by the server alone are those with the leading wildcard label *)
+Lemma server_only_domains : forall s, check_topdomain s true = true -> check_topdomain s false = false ->
+  exists t, s = ch_star :: ch_dot :: t /\ Forall dom_char t.
+Proof.
+  intros s Ht Hf. apply check_topdomain_iff in Ht. destruct Ht as (Hl & [Hc | (_ & t & Hs & Hct)] & Hls).
+  - exfalso. assert (check_topdomain s false = true) as E.
+    { apply check_topdomain_iff. split; [exact Hl|]. split; [left; exact Hc|exact Hls]. }
+    congruence.
+  - exists t. split; assumption.
+Qed.
